@@ -63,6 +63,22 @@ func clEmbeds(shape, kinds []string) bool {
 	return i == len(shape)
 }
 
+// clSyncWhileLeaving: the history contains "leave m" and, later, a push/pull or a
+// join in which m takes part.
+func clSyncWhileLeaving(hist []string, m string) bool {
+	left := false
+	for _, a := range hist {
+		f := strings.Fields(a)
+		if f[0] == "leave" && f[1] == m {
+			left = true
+		}
+		if left && (f[0] == "pushpull" || f[0] == "join") && (f[1] == m || f[2] == m) {
+			return true
+		}
+	}
+	return false
+}
+
 func clusterRun(ctx *vc.Ctx, faults bool) {
 	type cfg struct {
 		n, l, depth int
@@ -70,13 +86,13 @@ func clusterRun(ctx *vc.Ctx, faults bool) {
 	var cfgs []cfg
 	switch {
 	case !faults && !ctx.Thorough():
-		cfgs = []cfg{{2, 3, 9}, {3, 3, 7}}
+		cfgs = []cfg{{2, 3, 11}, {3, 3, 6}}
 	case !faults:
-		cfgs = []cfg{{2, 4, 12}, {3, 3, 9}, {3, 4, 8}}
+		cfgs = []cfg{{2, 4, 14}, {3, 3, 9}, {3, 4, 8}}
 	case !ctx.Thorough():
-		cfgs = []cfg{{3, 3, 7}}
+		cfgs = []cfg{{2, 3, 9}, {3, 3, 5}}
 	default:
-		cfgs = []cfg{{3, 3, 9}, {3, 4, 8}}
+		cfgs = []cfg{{2, 4, 12}, {3, 3, 8}, {3, 4, 7}}
 	}
 	for _, c := range cfgs {
 		f := 0
@@ -91,7 +107,19 @@ func clusterRun(ctx *vc.Ctx, faults bool) {
 				ctx.Violation(scn, v.Signature, fmt.Sprintf("history %v\n%s", hist, v.Message), map[string]interface{}{"scenario": scn, "history": hist})
 				return
 			}
-			// settled-status disagreements: attribute to the shortest counterexample of the same class
+			// settled-status disagreements
+			class, member := v.Class, ""
+			if i := strings.Index(class, " member="); i >= 0 {
+				class, member = class[:i], class[i+8:]
+			}
+			v.Class = class
+			if class == "truth=left reported=failed" && clSyncWhileLeaving(hist, member) {
+				// root cause named by the recorded finding: a state sync (push/pull or join) with the
+				// member while its graceful leave was in progress
+				ctx.Violation(scn, "truth=left reported=failed after a state sync with the member while it was mid-leave", fmt.Sprintf("shortest history: %v\n%s", hist, v.Message), map[string]interface{}{"scenario": scn, "history": hist})
+				return
+			}
+			// otherwise: attribute to the shortest counterexample of the same class
 			for _, s := range shapes {
 				if s.class == v.Class && clEmbeds(s.kinds, kinds) {
 					return
